@@ -563,7 +563,7 @@ the condition for sentences of TOKENS (`Deriv.yield`) to have one derivation (`u
 
 (The check as first written — `ParseWF0` in Lemmas/C10U.lean — treated the start symbol as never used inside a form,
 allowed `n?` for a nullable `n`, and forgot that `n*` can be followed by another `n`; each of the three lets an
-ambiguous table, see `parseWF0_too_weak`.) -/
+ambiguous table through, see `parseWF0_ambiguous` in Props/C10.lean.) -/
 def ParseWF (G : Table) : Bool := parseWFWith G disjointToks
 
 /-! #### tree labels are named after their keyword -/
